@@ -19,16 +19,21 @@ def _built(prop: str) -> bool:
 
 def determinism(prop: str, n: int, vseed: int) -> int:
     t0 = time.monotonic()
-    base, W = driver.run_batches(prop, "quick", vseed, n, {}, hashseed="0")
+    z = driver.Zygote(prop, cpu=0)
+    try:
+        idx = z.hello["meta"].get("selftest_indices", {}).get(str(n)) or list(range(n))
+    finally:
+        z.close()
+    base, W = driver.run_batches(prop, "quick", vseed, n, {}, hashseed="0", indices=idx)
     a = driver.merge(base)
     # the configurations must not share a wall-clock second: anything stamped with the real
     # clock (e.g. a gzip header) would otherwise look deterministic
     time.sleep(1.2)
-    other, _ = driver.run_batches(prop, "quick", vseed, n, {}, hashseed="424242")
+    other, _ = driver.run_batches(prop, "quick", vseed, n, {}, hashseed="424242", indices=idx)
     time.sleep(1.2)
     b = driver.merge(other)
     few = max(1, W // 5)
-    single, _ = driver.run_batches(prop, "quick", vseed, n, {}, hashseed="0", workers=few)
+    single, _ = driver.run_batches(prop, "quick", vseed, n, {}, hashseed="0", workers=few, indices=idx)
     c = driver.merge(single)
     bad = 0
     for m, label in ((a, "base"), (b, "hashseed"), (c, "workers")):
@@ -46,7 +51,7 @@ def determinism(prop: str, n: int, vseed: int) -> int:
     z = driver.Zygote(prop, cpu=0)
     replayed = 0
     try:
-        for i in list(range(0, n, max(1, n // 10)))[:10]:
+        for i in idx[:: max(1, len(idx) // 10)][:10]:
             seed = core.run_seed(vseed, prop, "quick", i)
             sc = z.call({"cmd": "gen", "seed": seed, "tier": "quick", "i": i})["scenario"]
             res = z.call({"cmd": "exec", "scenario": sc, "timeout": 120})
